@@ -10,7 +10,7 @@ func init() {
 var c18Keys = [8]string{"id", "sub", "dlvrd", "submit date", "done date", "stat", "err", "text"}
 
 // A receipt "k1:v1 k2:v2 ..." built from an ordered selection of the standard keys
-// (param sel: base-9 digits, digit = key index + 1) with symbolic space-free, colon-free values.
+// (param sel: base-9 digits, digit = key index + 1) with symbolic values of arbitrary octets other than space and colon.
 func VH_C18_smpp_receipt() {
 	sel, vl := vParam("sel"), vParam("vl")
 	var order []int
@@ -21,9 +21,8 @@ func VH_C18_smpp_receipt() {
 	text := ""
 	for i, k := range order {
 		v := vString(vIdx("v", k), vl)
-		vAssume(vAllInRange(v, 0x21, 0x7e))
-		for j := 0; j < len(v); j++ {
-			vAssume(v[j] != ':')
+				for j := 0; j < len(v); j++ {
+			vAssume(vAnd(v[j] != ':', v[j] != ' ')) // any octet (also NUL, invalid UTF-8) but space and colon
 		}
 		vals[k] = v
 		if i > 0 {
